@@ -55,6 +55,8 @@ pub fn c07(a: &Args) {
         let mut asets: Vec<Vec<i32>> = vec![vec![]];
         for _ in 0..3 { let len = 1 + r2.below(n.min(3) as usize); asets.push((0..len).map(|_| { let v = 1 + r2.below(n as usize) as i32; if r2.chance(0.5) { v } else { -v } }).collect()); }
         if r2.chance(0.2) { asets.push((0..22).map(|_| { let v = 1 + r2.below(n as usize) as i32; v }).collect()); }
+        // a feature in both polarities (no model contains both), alone and next to another literal
+        { let v = 1 + r2.below(n as usize) as i32; let w = 1 + r2.below(n as usize) as i32; asets.push(if r2.chance(0.5) { vec![v, -v] } else { vec![-v, w, v] }); }
         for al in asets {
             let count = tt.count_with(&al);
             for &k in &[0usize, 1, 2, 5, 17] {
@@ -66,7 +68,15 @@ pub fn c07(a: &Args) {
                 out.eval(if count >= 2 && k >= 1 { Some(format!("{}|{}", file.text(), req)) } else { None });
                 match res {
                     Err(e) => out.fail("urs-panic", &file.text(), &req, &format!("panic: {e}"), "samples"),
-                    Ok(None) => { if count > 0 { out.fail("urs-none", &file.text(), &req, "None", &format!("{k} samples")); } out.query("sample", &format!("{} {} | {}", k, fmt_ints(&al), evs.join(" ")), "none"); }
+                    Ok(None) => { if count > 0 { out.fail("urs-none", &file.text(), &req, "None", &format!("{k} samples")); } out.query("sample", &format!("{} {} | {}", k, fmt_ints(&al), evs.join(" ")), "none");
+                        // the stream front end must refuse as well (an error reply, not configurations)
+                        if count == 0 && k >= 1 && k <= 5 {
+                            let msg = format!("random a {} l {} s {}", fmt_ints(&al), k, seed);
+                            let s = guarded(|| d.handle_stream_msg(&msg)).unwrap_or_else(|e| format!("panic: {e}"));
+                            events.lock().unwrap().clear();
+                            let is_err = s.len() >= 2 && s.starts_with('E') && s.as_bytes()[1].is_ascii_digit();
+                            if !is_err { out.fail("stream-random-unsat", &file.text(), &msg, &s, "an error reply (no model contains the assumptions)"); }
+                        } }
                     Ok(Some(samples)) => {
                         if count == 0 { out.fail("urs-unsat", &file.text(), &req, &format!("{:?}", samples), "None"); }
                         if samples.len() != k { out.fail("urs-length", &file.text(), &req, &samples.len().to_string(), &k.to_string()); }
